@@ -112,8 +112,15 @@ fn import_sequence_node_fields(
         }
 
         if tag_name == "sequence" {
-            // nested sequence
-            return import_sequence_node_fields(&mut child, doc, base_fields);
+            // nested sequence; its members are followed by the remaining members of this one
+            import_sequence_node_fields(&mut child, doc, base_fields)?;
+            continue;
+        }
+
+        if tag_name == "attribute" || tag_name == "attributeGroup" || tag_name == "anyAttribute" {
+            // not a member of the particle (this function is also handed an <extension>, whose
+            // attribute declarations follow its sequence); attributes are read by the callers
+            continue;
         }
 
         // regular field
